@@ -129,6 +129,7 @@ def _arg(args, kwargs, pos, name):
 @lib("torchvision.transforms.functional.get_image_size")
 def _get_image_size(args, kwargs, st, eng):
     im = _img(eng, args[0], st)
+    eng.used_trusted.add("model:pyvc/libimg.py abstract image (width, height, channels, per-channel affine value map); images are non-empty")
     st.assume(im.w >= 1, im.h >= 1)
     return st.alloc(VSeq.of([VInt(im.w), VInt(im.h)], INT))
 
